@@ -21,10 +21,12 @@ structure Fixes where
   f4 : Bool   -- update_connid_counts is a no-op for an empty sentence
   f5 : Bool   -- EOS connections are counted at eos.start_node
   f2b : Bool  -- user lexicon ids are verified before translating through the stored mapper
+  f8 : Bool := true    -- lex.csv end-of-file handling
+  f10 : Bool := true   -- rewrite trie reuses only a node's last edge
   deriving Repr, DecidableEq, Inhabited
 
-def Fixes.all : Fixes := ⟨true, true, true, true, true, true⟩
-def Fixes.pinned : Fixes := ⟨false, false, false, false, false, false⟩
+def Fixes.all : Fixes := ⟨true, true, true, true, true, true, true, true⟩
+def Fixes.pinned : Fixes := ⟨false, false, false, false, false, false, false, false⟩
 
 structure UnkEntryM where
   cateId : Nat
